@@ -98,3 +98,13 @@ Example C16_source_difference_overlapping_is_model : _ := g_diff_overlapping_is_
 Example C16_source_base_overlapping_is_model : _ := g_base_overlapping_is_model.
 Print Assumptions C16_source_complement_overlapping_is_model.
 Print Assumptions C16_source_difference_overlapping_is_model.
+
+(* ---- tie C: overlapping(p) of a stored timeline is Timeline.overlapping over MemoryTimeline.fetch, i.e. over
+   _fetch_static and the write paths that maintain the store, as the source text has them ---- *)
+From CG Require Import Proofs.GenEq4 Proofs.GenEq_mem.
+Example C16_source_fetch_static_is_model : _ := g_mem_fetch_static_eq.
+Print Assumptions C16_source_fetch_static_is_model.
+Example C16_source_memory_fetch_is_model : _ := g_mem_fetch_eq.
+Print Assumptions C16_source_memory_fetch_is_model.
+Example C16_source_remove_interval_is_model : _ := g_mem_remove_interval_eq.
+Print Assumptions C16_source_remove_interval_is_model.
